@@ -116,7 +116,7 @@ func runC04(x *core.Ctx) {
 	if x.Thorough() {
 		maxBody = 6
 	}
-	kinds := []env.Kind{env.KBufio16, env.KRich, env.KLimited, env.KOddLen, env.KBytesBuffer, env.KStringsReader}
+	kinds := []env.Kind{env.KBufio16, env.KRich, env.KLimited, env.KOddLen, env.KCloser, env.KConnFlaky, env.KBytesBuffer, env.KStringsReader}
 	// a peer that never stops sending: every prefix of at most 2 bytes
 	// followed by an endless run of 80, ff or 00 - ReadPacket must return
 	// (here: within the step budget), whatever it returns
